@@ -57,6 +57,8 @@ type Obligation struct {
 	Status string
 	Solver string
 	Secs   float64
+	// Retried: decided only in the second-chance phase (longer limit)
+	Retried bool
 	Model  string
 	Query  string
 }
